@@ -472,6 +472,20 @@ pub fn c13(g: &mut Gen) {
             }
         }
     }
+    // scripted plateaus and ties while the measured validation ACCURACY changes (lr = 0.5 fits the sample exactly after one
+    // step: accuracy 0 in epoch 1, 1 from epoch 2 on; lr = 1 alternates): the stop test looks at the losses alone
+    // (lr = 0.4375: the weight shrinks by 1/8 per epoch, 0.5 * 8^-k: the prediction comes within validate's 1e-6 of the
+    // target in epoch 7 — accuracy 0 up to epoch 6, 1 from epoch 7 on, in the middle of the scripted plateau)
+    for lr in [0.4375f32, 0.5, 1.0, 0.25] {
+        for s in [vec![1.0f32; 12], vec![5.0, 2.0, 2.0, 3.0, 1.0, 1.0, 1.0, 1.0, 1.0, 1.0, 1.0, 1.0], vec![2.0, 2.0, 3.0, 3.0, 4.0, 4.0, 5.0, 5.0, 6.0, 6.0, 7.0, 7.0],
+                  vec![1.0, 1.0, 2.0, 2.0, 2.0, 3.0, 3.0, 3.0, 3.0, 4.0, 4.0, 4.0], vec![3.0, 3.0, 3.0, 3.0, 3.0, 2.0, 2.0, 2.0, 2.0, 2.0, 2.0, 2.0]] {
+            for t in 1..=4 {
+                if !g.ctx.thorough() && lr != 0.4375 && t == 4 { continue; }
+                let net = one_param_net(0.5, lr);
+                g.push(format!("net {} learn 1 {} 1 1 {} {} 1 12 {} {}", net.token(), sample, sample, t, s.len(), q1(&s)), Tol::Tight, &format!("plateau-with-changing-accuracy/T{}", t), true);
+            }
+        }
+    }
     // hook-free family: the error contracts (lr < 1) or expands (lr > 1) by |1 - 2 lr| per epoch, or oscillates around a plateau
     for lr in [0.1f32, 0.4, 0.5, 0.9, 1.0, 1.05, 1.2, 1.5] {
         for t in 1..=3 {
@@ -1041,6 +1055,24 @@ pub fn c10(g: &mut Gen) {
             let x = Tensor::single(vec![0.0, 0.7]);
             let t = Tensor::single(vec![0.3]);
             g.push(format!("net {} learn 1 {} {} 0 1 1 0", net.token(), qt(&x), qt(&t)), Tol::Loose, &format!("learn/overflowing-accumulation/{}/L{}", acc, loops), true);
+        }
+    }
+    // a step whose gradients are ALL exactly zero (an all-zero input into bias-free linear layers) after steps that moved the
+    // copies: stateful optimizers still move every copy (carried momentum / moments), so the copies are re-tied all the same
+    for (oi, o) in opts.iter().enumerate() {
+        for acc in ["mean", "add"] {
+            for loops in [2usize, 3] {
+                if !g.ctx.thorough() && (oi + loops) % 2 == 1 && acc == "add" { continue; }
+                let inner = InnerSpec::Dense { out: 2, act: "linear".into(), bias: false, dropout: None, w: Tensor::double(vec![vec![0.6, -0.3], vec![0.2, 0.5]]), b: None };
+                let mut net = NetSpec { input: Shape::Single(2), builds: vec![Build::Feedback { inner: vec![inner], loops, inskips: false, outskips: false, acc: acc.into() }],
+                    skipacc: "add".into(), loopacc: "mean".into(), opt: None, obj: "mse".into(), clamp: None };
+                net.opt = Some(o.clone());
+                let moving = format!("{} {}", qt(&Tensor::single(vec![0.7, -0.4])), qt(&Tensor::single(vec![0.3, 0.1])));
+                let still = format!("{} {}", qt(&Tensor::single(vec![0.0, 0.0])), qt(&Tensor::single(vec![0.0, 0.0])));
+                for e in [1usize, 2, 3] {
+                    g.push(format!("net {} learn 2 {} {} 0 1 {} 0", net.token(), moving, still, e), Tol::Loose, &format!("learn/zero-gradient-step/{}/{}/L{}", o.kind(), acc, loops), true);
+                }
+            }
         }
     }
     // the `overwrite` coupling is not implemented: training such a block is refused
